@@ -20,7 +20,7 @@ sends the chunk and retries the same item (the item iterator is not advanced bef
 the item read, so a payload that did not fit is retried in the next chunk; (e) every IM buffer a report is built in is resized to a constant
 not above MAX_EXCHANGE_TX_BUF_SIZE (a chunk that one exchange message cannot carry is never delivered).
 """
-CLAUSES = ['a: trailer byte bound <= reserve', 'b: only the last chunk ends the interaction', 'c: rewind on overflow, retry the same item; the event scan stops at the first event that does not fit', 'd: list index discipline', 'e: report buffers sized to one exchange message', 'f: a subscription report covers exactly the events it commits']
+CLAUSES = ['a: trailer byte bound <= reserve (tracked reserve: set from the shrink constant, released within what is left); array framing of the final message is written into released reserve', 'b: only the last chunk ends the interaction', 'c: rewind on overflow, retry the same item; the event scan stops at the first event that does not fit', 'd: list index discipline', 'e: report buffers sized to one exchange message', 'f: a subscription report covers exactly the events it commits']
 NOT_DECIDED = ['concatenation of chunks equals the one-shot expansion', 'element boundaries of handler-produced lists', 'size arithmetic for arbitrary values']
 MIN_OBLIGATIONS = {'q': 20, 'd': 20, 'r': 20}
 
@@ -80,7 +80,8 @@ def check(R):
             ws = {F.owner_fn(b_.fn): b_ for b_ in F.bodies.values() if b_.focus and list(b_.field_writes(fld))}
             R.confine('P1', 'writers of ReportDataResponder.reserved', set(ws), {RD + '::start_reply', RD + '::end_reply', RD + '::unreserve', RD + '::new'})
             w0 = [st for i, j, st in sr.field_writes(fld)]
-            okset = bool(w0) and all({x[1] for x in prims.sources(sr, st[1]['a'][0]) if x[0] == 'constp'} == {res} for st in w0)
+            # ... the constant itself, not an expression over it
+            okset = bool(w0) and all(st[1].get('op') == 'use' and st[1]['a'][0].get('k', {}).get('p') == res and st[1]['a'][0].get('k', {}).get('v') == Rv for st in w0)
             un = F.bodies.get(RD + '::unreserve')
             okun = True
             if un is not None:
